@@ -29,7 +29,7 @@ def _replay_one(rec):
     r = impl.call(dsw.accessor_to_latter_map, acc)
     lm = r["value"] if r["out"] == "ok" else None
     want = {v: rec["lmap"][v] for v in range(n) if rec["lmap"][v]}
-    got = None if lm is None else {int(k): sorted(int(x) for x in vs) for k, vs in lm.items()}
+    got = None if lm is None else {impl.index_of(k): sorted(impl.index_of(x) for x in vs) for k, vs in lm.items()}
     if got != {k: sorted(v) for k, v in want.items()}:
         bad.append(("latter-map-content", want, impl.jsonable(got if got is not None else r)))
     if lm is not None:
@@ -49,7 +49,7 @@ def _replay_one(rec):
         if r2["out"] != "ok" or not numpy.array_equal(r2["value"], keep):
             bad.append(("matrix-round-trip", impl.acc_list(keep), impl.jsonable(r2.get("value", r2))))
     r = impl.call(dsw.obtain_vertices, acc)
-    if r["out"] != "ok" or sorted(int(x) for x in r["value"]) != rec["verts"] or len(r["value"]) != len(rec["verts"]):
+    if r["out"] != "ok" or sorted(impl.index_of(x) for x in r["value"]) != rec["verts"] or len(r["value"]) != len(rec["verts"]):
         bad.append(("vertex-listing", rec["verts"], impl.jsonable(r.get("value", r))))
     for v in range(n):
         for d, want_l in enumerate(rec["leaves"][v]):
@@ -58,7 +58,7 @@ def _replay_one(rec):
             for which, rr in (("accessor", ra), ("latter_map", rl)):
                 if rr["out"] == "skip":
                     continue
-                g = sorted(int(x) for x in rr["value"]) if rr["out"] == "ok" else rr
+                g = sorted(impl.index_of(x) for x in rr["value"]) if rr["out"] == "ok" else rr
                 if g != want_l:
                     bad.append(("leaf-query", {"v": v, "d": d, "from": which, "leaves": want_l}, impl.jsonable(g)))
     if not numpy.array_equal(acc, keep):
@@ -81,7 +81,7 @@ def record(rng, ngraph, nillegal):
         c = {"kind": "graph", "k": k, "live": live}
         r = impl.call(dsw.accessor_to_latter_map, acc)
         lm = r["value"] if r["out"] == "ok" else {}
-        c["lmap"] = [[int(a), [int(x) for x in b]] for a, b in lm.items()]
+        c["lmap"] = [[impl.index_of(a), [impl.index_of(x) for x in b]] for a, b in lm.items()]
         if i % 2 == 1:      # a user-written map: plain ints, keys and successor lists in arbitrary order
             keys = [int(a) for a in lm.keys()]
             rng.shuffle(keys)
@@ -106,15 +106,15 @@ def record(rng, ngraph, nillegal):
                 r2 = impl.call(dsw.adjacency_matrix_to_accessor, m)
                 c["back_mx"] = impl.acc_list(r2["value"]) if r2["out"] == "ok" else []
         r = impl.call(dsw.obtain_vertices, acc)
-        c["verts"] = [int(x) for x in r["value"]] if r["out"] == "ok" else [-1]
+        c["verts"] = [impl.index_of(x) for x in r["value"]] if r["out"] == "ok" else [-1]
         c["leaf"] = []
         for _ in range(6):
             v, d = rng.randrange(n), rng.randint(0, 4 if k <= 4 else 3)
             ra = impl.call(dsw.obtain_leaf_vertices, v, d, accessor=acc)
             rl = impl.call(dsw.obtain_leaf_vertices, v, d, latter_map=lm)
             c["leaf"].append({"v": v, "d": d,
-                              "acc": sorted(int(x) for x in ra["value"]) if ra["out"] == "ok" else [-1],
-                              "lm": sorted(int(x) for x in rl["value"]) if rl["out"] == "ok" else [-1]})
+                              "acc": sorted(impl.index_of(x) for x in ra["value"]) if ra["out"] == "ok" else [-1],
+                              "lm": sorted(impl.index_of(x) for x in rl["value"]) if rl["out"] == "ok" else [-1]})
         cases.append(c)
     for i in range(nillegal):
         k = rng.choice([2, 2, 3])
